@@ -9,7 +9,7 @@ PY = "/venv/bin/python"
 # id -> (technique, level text, level note, design_ref)
 CLAIMED = {
     "C01": (
-        "Lean 4 theorems over the reals about the model of log_likelihood (mixture identity vs Mathlib's gaussianPDFReal, integral = 1, lse bounds) + Float-instantiated model vs implementation correspondence",
+        "Lean 4 theorems over the reals about the model of log_likelihood (mixture identity vs Mathlib's gaussianPDFReal, integral = 1, lse bounds, tied components both count: + log 2 for an exact two-way tie) + Float-instantiated model vs implementation correspondence",
         "Proof: logLik = log of the weighted mixture of Mathlib normal densities, integrates to one, per-component terms log-sum-exp to it, batch/chunked = row-wise, for all C, D, parameters and samples. The tie to gmm.py is the correspondence of the same Lean definitions run at Float against the implementation (single, batch, Dask, acc_stats).",
         "Real arithmetic, not IEEE: the clause 'finite in the tails' is partial (theorem C01_tail_bounds gives max <= lse <= max + log C over the reals; float behaviour is only searched). Trusted: Lean kernel, Mathlib, harness comparison with tolerance 1e-8.",
         "§6 C01",
@@ -57,7 +57,7 @@ CLAIMED = {
         "§6 C18",
     ),
     "C08": (
-        "Lean 4 theorems: closed formula of every entry incl. the |t| <= eps guard, zero for the UBM, linearity in the model offset, additivity in statistics, shape, entry-point equalities, and HasDerivAt: the score is the derivative at 0 of the data's UBM log-likelihood as the means move towards the model (log-sum-exp derivative + regrouping into statistics); Float model vs linear_scoring over all argument forms",
+        "Lean 4 theorems: closed formula of every entry incl. the |t| <= eps guard, zero for the UBM, linearity in the model offset, additivity in statistics, shape, entry-point equalities, a Gaussian the statistics never visited contributes exactly 0 (no division by a count), a scalar offset is the constant array, and HasDerivAt: the score is the derivative at 0 of the data's UBM log-likelihood as the means move towards the model (log-sum-exp derivative + regrouping into statistics); Float model vs linear_scoring over all argument forms",
         "Proof for all C, D, UBMs, models, statistics, offsets. Tie: linear_scoring with models as machines / 3-D / 2-D arrays, single or listed statistics incl. zero-frame ones, scalar / shared / per-test offsets, both normalisation settings, ML or MAP UBM argument.",
         "Real arithmetic; Python's argument-normalisation glue is modelled by small inductive argument types.",
         "§6 C08",
